@@ -67,6 +67,11 @@ chk("C13",
     TRUST + "Not decided: 18-decimal rounding of cur/last; order-book evolution between end times.",
     "ORD-EVAL over the decision's finite case split + writer table + provenance shape of the appended end time and the compared ratio", "DESIGN.md section 4 C13")
 
+chk("C09",
+    "Structural necessary conditions: (VEST-SHARE) the amount stored for an instalment is TruncateInt(MulTruncate(Dec(total), weight)) — rounding direction FLOOR by the operator table — with total the very coin swept from the paying escrow into the vesting escrow (the escrow's whole balance of the paying denomination) and weight and release time taken from the same schedule entry that keys the record; (VEST-REM) the alternative stored amount is the loop-carried remainder R (R0 = swept total, R' = R − stored amount), selected on the true edge of index == len(schedules)−1 for the index that selects the entry; (VEST-ONCE) every transfer out of the vesting escrow pays the iterated record's own PayingCoin to the auctioneer and, on every path, is followed before the loop continues or the function succeeds by writing that record back unchanged except Released=true under the key rebuilt from its own fields (and Released=true is stored only after a transfer); (VEST-WRITERS) the queue is written only by settlement (Released=false), release (true) and genesis import, never from a message handler. Release timing is TIME-POL/FINISH-LAST under C08.",
+    TRUST + "Not decided: Σ instalments = proceeds as a number (VEST-REM is its structural reason); schedule validity arithmetic.",
+    "rounding-direction analysis over provenance terms + loop-carried remainder recognition + pairing automaton over abstract paths", "DESIGN.md section 4 C09")
+
 PENDING = {}  # property -> reason (kept current as checks are added)
 ALL = ["C%02d" % i for i in range(1, 21)]
 for p in ALL:
